@@ -485,7 +485,15 @@ func (ps *sparser) postfix(x SExpr) SExpr {
 
 // ---- contract file structure ----
 
+type GhostVar struct {
+	Name string
+	Type string
+	Init Clause
+	Step Clause
+}
+
 type LoopSpec struct {
+	Ghosts      []GhostVar
 	Unreachable bool
 	Invariants []Clause
 	Decreases  *Clause
@@ -650,6 +658,29 @@ func (ss *SpecSet) ParseSpecText(lines []string, wheres []string, pkg string) er
 			ss.Order = append(ss.Order, key)
 			curLoop, curLemma, curGhost = nil, nil, nil
 		case "ghost":
+			if curLoop != nil && !strings.HasPrefix(strings.TrimSpace(rc.text), "func") {
+				// loop ghost variable: ghost NAME TYPE = INIT step STEP
+				t := strings.TrimSpace(rc.text)
+				eq := strings.Index(t, "=")
+				st := strings.LastIndex(t, " step ")
+				if eq < 0 || st < eq {
+					return fmt.Errorf("%s: bad loop ghost %q", rc.where, t)
+				}
+				hd := strings.Fields(t[:eq])
+				if len(hd) != 2 {
+					return fmt.Errorf("%s: bad loop ghost header %q", rc.where, t[:eq])
+				}
+				ic, err := mkClause(t[eq+1:st], rc.where)
+				if err != nil {
+					return err
+				}
+				sc, err := mkClause(t[st+6:], rc.where)
+				if err != nil {
+					return err
+				}
+				curLoop.Ghosts = append(curLoop.Ghosts, GhostVar{Name: hd[0], Type: hd[1], Init: ic, Step: sc})
+				continue
+			}
 			// ghost func name(params) T [= expr]
 			g, err := parseGhostHeader(rc.text)
 			if err != nil {
